@@ -7,8 +7,8 @@ Bounded exhaustive enumeration on the real `abacusnbody.data.pipe_asdf.unpack_to
   file set : 1..3 real ASDF files with the given row counts (0 rows included), written under /dev/shm
   compress : none | zlib | blsc | mix (file i uses none/zlib/blsc in rotation); the block headers of the written
              files are parsed to confirm the compression label really is in the file
-  fields   : every ordered list of 1..3 distinct columns out of 5 (85 lists); thorough also lists with repeats
-             (155) and the empty list
+  fields   : every ordered list of 1..3 distinct columns out of 5 (85 lists); thorough: also the lists with
+             repeated columns (155) on the uncompressed and mixed file sets, and the empty list
   mode     : rec (in-memory recording pipe), ospipe (a real OS pipe drained by a thread through a BufferedWriter,
              like sys.stdout.buffer), cli (`python -m abacusnbody.data.pipe_asdf` in a subprocess, subset)
   errors   : a missing path / a directory at every position of the file list; a field that exists in no file at
@@ -29,7 +29,8 @@ import struct
 PID = 'C20'
 LEVEL = 'exploration'
 RULE = ('full product schema x file set (1-3 real ASDF files, row counts incl. 0) x compression {none, zlib, blsc, mixed} x '
-        'all ordered field lists of length <= 3 over 5 columns (85; thorough: 155 with repeats + the empty list) x pipe kind '
+        'all ordered field lists of length <= 3 over 5 columns (85; thorough: 155 with repeats on uncompressed/mixed sets + the '
+        'empty list) x pipe kind '
         '{recording, real OS pipe}; CLI subprocess on a rotating subset; error alphabet: missing path/directory at every file '
         'position, unknown field at every position of every list, field absent from exactly one file; strided 1-D columns. '
         'non-trivial = distinct (schema, rows, compression, field list) whose expected stream carries payload bytes, plus '
@@ -98,33 +99,35 @@ def _cases(tier, seed):
     # simplest first: one uncompressed file, recording pipe
     for mode in ('rec', 'ospipe'):
         for ri, rows in enumerate(rowsets):
+            multi = len(rows) > 1
             for comp in COMPS:
-                if comp == 'mix' and len(rows) == 1:
+                if comp == 'mix' and not multi:
                     continue
-                if mode == 'ospipe' and not thorough and comp != 'mix':
+                if mode == 'ospipe' and comp not in (('blsc', 'mix') if thorough else ('mix',)):
                     continue
                 for si, s in enumerate(schemas):
                     # quick: S0 with every compression, S1 with one (rotating) compression per file set;
                     # the real OS pipe with one (rotating) schema
-                    if not thorough and mode == 'rec' and si == 1 and comp != COMPS[(ri + seed) % (4 if len(rows) > 1 else 3)]:
+                    if not thorough and mode == 'rec' and si == 1 and comp != COMPS[(ri + seed) % (4 if multi else 3)]:
                         continue
                     if not thorough and mode == 'ospipe' and si != (ri + seed) % 2:
                         continue
+                    # thorough: lists with repeated fields (155 instead of 85) on uncompressed and mixed file sets
+                    rep = thorough and mode == 'rec' and comp in ('none', 'mix')
                     for first in range(5):
-                        yield dict(kind='ok', schema=s, rows=list(rows), comp=comp, mode=mode, first=first,
-                                   repeats=thorough and mode == 'rec')
+                        yield dict(kind='ok', schema=s, rows=list(rows), comp=comp, mode=mode, first=first, repeats=rep)
     if thorough:
         for s in schemas:
             for comp in COMPS[:3]:
                 yield dict(kind='ok', schema=s, rows=[3, 4], comp=comp, mode='rec', first=-1, repeats=False)
-    # CLI subset: every (schema, rows, comp) in thorough / a rotating sixth of them in quick, 3 lists each
+    # CLI subset: a rotating sixth (quick) / two thirds (thorough) of all (schema, rows, comp), 3 lists each
     for s in schemas:
         for rows in rowsets:
             for comp in COMPS:
                 if comp == 'mix' and len(rows) == 1:
                     continue
                 k += 1
-                if thorough or k % 6 == 0:
+                if (k % 3 != 0) if thorough else (k % 6 == 0):
                     yield dict(kind='ok', schema=s, rows=list(rows), comp=comp, mode='cli', first=k % 5,
                                repeats=False, pick=k)
     # error alphabet
@@ -132,26 +135,36 @@ def _cases(tier, seed):
     for s in schemas:
         for rows in erows:
             k += 1
+            multi = len(rows) > 1
+            rot = COMPS[k % (4 if multi else 3)]      # the one compression used for the slower variants
             for comp in COMPS:
-                if comp == 'mix' and len(rows) == 1:
+                if comp == 'mix' and not multi:
                     continue
-                if not thorough and comp != COMPS[k % 4]:
+                if not thorough and comp != rot:
                     continue
                 for mode in ('rec', 'ospipe'):
+                    if mode == 'ospipe' and comp != rot:
+                        continue
                     yield dict(kind='nofile', schema=s, rows=list(rows), comp=comp, mode=mode)
                     yield dict(kind='nofield', schema=s, rows=list(rows), comp=comp, mode=mode)
-                    if len(rows) == 1 or (mode == 'ospipe' and (not thorough or comp != 'mix')):
-                        continue
-                    if not thorough and s != schemas[k % 2]:
-                        continue
-                    if thorough and mode == 'rec' and comp not in ('none', 'mix'):
-                        continue
-                    for df in range(len(rows)):
-                        for dc in (range(5) if thorough else (df, 4)):
-                            yield dict(kind='partial', schema=s, rows=list(rows), comp=comp, mode=mode,
+                if comp == rot:
+                    yield dict(kind='nofile', schema=s, rows=list(rows), comp=comp, mode='cli')
+                    yield dict(kind='nofield', schema=s, rows=list(rows), comp=comp, mode='cli')
+                if not multi:
+                    continue
+                # a column absent from exactly one file: (file, column) pairs; quick: one schema, 2 columns per file,
+                # thorough: all 5 columns per file on uncompressed + mixed sets, schema rotating with (file, column)
+                for df in range(len(rows)):
+                    for dc in (range(5) if thorough else (df, 4)):
+                        if thorough:
+                            if comp not in ('none', 'mix') or s != schemas[(df + dc + k) % 3]:
+                                continue
+                        elif s != schemas[k % 2]:
+                            continue
+                        yield dict(kind='partial', schema=s, rows=list(rows), comp=comp, mode='rec', dropfile=df, dropcol=dc)
+                        if thorough and comp == 'mix':
+                            yield dict(kind='partial', schema=s, rows=list(rows), comp=comp, mode='ospipe',
                                        dropfile=df, dropcol=dc)
-                yield dict(kind='nofile', schema=s, rows=list(rows), comp=comp, mode='cli')
-                yield dict(kind='nofield', schema=s, rows=list(rows), comp=comp, mode='cli')
     # strided 1-D columns
     for comp in COMPS[:3]:
         for mode in ('rec', 'ospipe', 'cli'):
@@ -582,5 +595,5 @@ def finalize(agg, tier):
 def BOUNDS(tier):
     t = tier == 'thorough'
     return dict(schemas=3 if t else 2, columns_per_schema=5, row_sets=[list(r) for r in (ROWS_T if t else ROWS_Q)],
-                compressions=list(COMPS), field_lists_per_file_set=(155 + 1) if t else 85, max_files=3,
+                compressions=list(COMPS), field_lists_per_file_set='85 (155 with repeated columns on uncompressed/mixed sets)' if t else 85, max_files=3,
                 item_widths=[1, 2, 4, 8] + ([16] if t else []))
